@@ -14,6 +14,28 @@ int __CPROVER_file_local_rawlp_mpq_c_buildMatrix(mpq_rawlpdata *raw, mpq_ILLlpda
 static int warns;
 void mpq_ILLdata_warn(mpq_qserror_collector *collector, const char *format, ...) { warns++; }
 const char *mpq_ILLraw_colname(mpq_rawlpdata *lp, int i) { __CPROVER_assert(0 <= i && i < lp->ncols, "raw column name asked for a raw column index"); return "c"; }
+#ifdef SHAPE2
+/* second constructed shape: an OBJECTIVE-ONLY column (no constraint coefficient) stored before an ordinary column.  The
+ * empty column owns one marker slot of its own; the next column starts behind it (the in-place column store lets a column
+ * grow into a slot that looks free). */
+void harness(void)
+{
+	static mpq_rawlpdata raw; static mpq_ILLlpdata lpd; static mpq_colptr node[2]; static mpq_colptr *cols[2];
+	static char nm[2] = "x"; char **colnames = malloc(sizeof(char *) * 2);
+	int rowindex[2] = { -1, 0 }, colindex[2] = { 0, 1 }, rv, v = nondet_int();
+	qsv_init_globals();
+	__CPROVER_assume(colnames != 0); colnames[0] = nm; colnames[1] = nm;
+	qsv_setnum(node[0].coef, nondet_int()); node[0].this_val = 0; node[0].next = 0; cols[0] = &node[0];	/* objective row only */
+	qsv_setnum(node[1].coef, v); node[1].this_val = 1; node[1].next = 0; cols[1] = &node[1];
+	raw.ncols = 2; raw.nrows = 2; raw.cols = cols; raw.error_collector = 0;
+	lpd.ncols = 2; lpd.nrows = 1; lpd.nzcount = 0; lpd.colnames = colnames;
+	rv = __CPROVER_file_local_rawlp_mpq_c_buildMatrix(&raw, &lpd, rowindex, colindex);
+	ASSERT(rv == 0 && lpd.A.matcnt[0] == 0 && lpd.A.matcnt[1] == 1 && lpd.nzcount == 1, "C10: the objective-only column has no constraint entry, the other column has one");
+	ASSERT(lpd.A.matbeg[0] == 0 && lpd.A.matbeg[1] == 1 && lpd.A.matind[0] != -1 && lpd.A.matind[1] == 0 && NUMV(lpd.A.matval[1]) == v && lpd.A.matsize == 3 && lpd.A.matind[2] == -1 && lpd.A.matfree == 1,
+		"C06/C11: an empty column owns a marker slot of its own and the next column starts behind it; sizes and end marker describe exactly this");
+	REACH_END();
+}
+#else
 void harness(void)
 {
 	static mpq_rawlpdata raw; static mpq_ILLlpdata lpd; static mpq_colptr node[3]; static mpq_colptr *cols[2];
@@ -30,4 +52,5 @@ void harness(void)
 	ASSERT(rv == 0 && lpd.A.matcnt[0] == 1 && lpd.A.matind[lpd.A.matbeg[0]] == 0 && lpd.nzcount == 1 && warns == 1, "C10: the two terms become one entry of the only column, with one warning");
 	REACH_END();
 }
+#endif
 QSV_MAIN(harness)
